@@ -3,6 +3,7 @@ from ..core import Rule
 from ..prog import *
 from ..facts import AnalysisBroken
 from .. import httpframe as H
+from .. import chunked as CH
 
 UNITS = ["http"]
 LEVEL = "other"
@@ -54,4 +55,4 @@ def run(ctx, config):
             seen.add(f_.key)
             uniq.append(f_)
     r.findings = uniq
-    return [r]
+    return [r, CH.rule_chunked(P, "%s-chunked" % __name__.split(".")[-1], WHAT)]
